@@ -5,7 +5,8 @@
 // Histories of at most D operations over {refresh->new, sideload (local revision), refresh->kept r, revert->kept r, set refresh.retain to
 // one of {unset, 2, 3, 5, "2", "4", 20}} after the install, on a classic device and a core device (app snap),
 // and on a core device for the model's kernel snap with every boot in-use answer {kernel} / {kernel, try-kernel}
-// over the kept revisions as an additional environment operation. Breadth-first with state deduplication;
+// over the kept revisions as an additional environment operation, and likewise for the UC16 OS snap "core"
+// (type os, in-use answers {core} / {core, try-core}; refresh.retain settings {unset, 2}). Breadth-first with state deduplication;
 // the oracle is evaluated after every settled refresh.
 package snapstate_test
 
@@ -140,10 +141,22 @@ func c12Key(viol string, op vOp, cfg vCfg) string {
 	if cfg.Kernel {
 		dev += "-kernel"
 	}
+	if cfg.OS {
+		dev += "-os"
+	}
 	return strings.SplitN(viol, ":", 2)[0] + ":" + op.K + ":" + dev
 }
 
-func c12Gen(st vState) []vOp {
+func c12Gen(st vState) []vOp { return c12GenRetain(st, c12RetainValues) }
+
+// c12GenOS is the alphabet of the UC16 OS snap root ("core", type os, a boot participant on a core device like
+// the kernel): the same operations and the same in-use answers as on the kernel root, with the refresh.retain
+// settings cut down to {unset, 2} (the retain reading itself is covered on the other roots).
+func c12GenOS(st vState) []vOp { return c12GenRetain(st, c12RetainValuesOS) }
+
+var c12RetainValuesOS = []string{"", "2"}
+
+func c12GenRetain(st vState, retainValues []string) []vOp {
 	a := st.A
 	if !a.Installed {
 		return nil
@@ -155,10 +168,11 @@ func c12Gen(st vState) []vOp {
 			ops = append(ops, vOp{K: "refresh-kept", P: p}, vOp{K: "revert-to", P: p})
 		}
 	}
-	for _, rv := range c12RetainValues {
+	for _, rv := range retainValues {
 		ops = append(ops, vOp{K: "set-retain", V: rv})
 	}
-	if st.Path.Cfg.Kernel {
+	// boot snaps of the core device (the kernel snap; the OS snap "core" of a UC16 model): every in-use answer
+	if st.Path.Cfg.Kernel || st.Path.Cfg.OS {
 		for p := range a.Seq {
 			ops = append(ops, vOp{K: "inuse", P: p})
 			for q := p + 1; q < len(a.Seq); q++ {
@@ -188,7 +202,7 @@ func c12GenLocal(st vState) []vOp {
 	return ops
 }
 
-const c12Rule = "all histories up to the depth bound over {refresh->new, refresh->each kept, revert->each kept, set refresh.retain in {unset,2,3,5,\"2\",\"4\",20}, boot in-use answer (kernel snap)} from an installed snap, per device root, states deduplicated on the canonical key (breadth-first, replay from a fresh fixture); on the -local roots the alphabet is {refresh->new (--amend when the current revision is a sideloaded one), sideload (refresh from a local file to a new local revision), refresh->each kept, revert->each kept} at the device's default retain; the oracle is evaluated after every settled refresh (sideloads included); non-trivial = refreshes in which at least one revision was discarded"
+const c12Rule = "all histories up to the depth bound over {refresh->new, refresh->each kept, revert->each kept, set refresh.retain in {unset,2,3,5,\"2\",\"4\",20}, boot in-use answer (kernel snap; OS snap core of type os, with set refresh.retain in {unset,2} only)} from an installed snap, per device root, states deduplicated on the canonical key (breadth-first, replay from a fresh fixture); on the -local roots the alphabet is {refresh->new (--amend when the current revision is a sideloaded one), sideload (refresh from a local file to a new local revision), refresh->each kept, revert->each kept} at the device's default retain; the oracle is evaluated after every settled refresh (sideloads included); non-trivial = refreshes in which at least one revision was discarded"
 
 func (s *verifC12Suite) TestVerifC12(c *C) {
 	r := eng.Start("C12", "model_checking", 300*time.Second, 14*time.Minute)
@@ -203,7 +217,7 @@ func (s *verifC12Suite) TestVerifC12(c *C) {
 	}
 	vPMapWorker(map[string]func(string) string{"expand": vExpandFn(c)})
 	r.Assume("fake backend/store of the package's fixture; kept revisions are read from SnapState after the change settled",
-		"boot in-use answers are given by setting snap_kernel/snap_try_kernel of the fixture's mock bootloader to kept revisions of the model's kernel snap (core device, UC16-style model); app snaps are never in use for booting",
+		"boot in-use answers are given by setting snap_kernel/snap_try_kernel of the fixture's mock bootloader to kept revisions of the model's kernel snap, resp. snap_core/snap_try_core to kept revisions of the OS snap core (core device, UC16-style model); app snaps are never in use for booting",
 		"reference reading of refresh.retain: a JSON number or a string holding one; unset = 2 on classic, 3 on core",
 		"state key merges fixtures equal up to renaming of revisions and clock values; sequential settle")
 
@@ -270,6 +284,7 @@ func (s *verifC12Suite) TestVerifC12(c *C) {
 		{"classic-app", vPath{Cfg: vCfg{}, Ops: []vOp{{K: "install"}}}, depth, c12Gen},
 		{"core-app", vPath{Cfg: vCfg{Core: true}, Ops: []vOp{{K: "install"}}}, depth, c12Gen},
 		{"core-kernel", vPath{Cfg: vCfg{Core: true, Kernel: true}, Ops: []vOp{{K: "install"}, {K: "inuse", P: 0}}}, kdepth, c12Gen},
+		{"core-os", vPath{Cfg: vCfg{Core: true, OS: true}, Ops: []vOp{{K: "inuse", P: 0}}}, kdepth, c12GenOS},
 		{"classic-app-local", vPath{Cfg: vCfg{}, Ops: []vOp{{K: "sideload"}}}, ldepth, c12GenLocal},
 		{"core-app-local", vPath{Cfg: vCfg{Core: true}, Ops: []vOp{{K: "sideload"}}}, ldepth, c12GenLocal},
 	}
